@@ -384,8 +384,11 @@ def pKnots (closed : Bool) : Nat → PW
   | 0 => pOk
   | n + 1 =>
     pU "path" 2 fun sel =>
-      pCheck "path" "knot record of the wrong kind inside a subpath"
-        (if closed then sel == 1 || sel == 2 else sel == 4 || sel == 5) ⨾
+      -- the count announces KNOT records (selectors 1, 2, 4, 5); whether a knot of the closed family sits in an open
+      -- subpath is a judgement about a value, not about a length or a count (the library writes the objects the
+      -- caller built; a generated instance mixing the families was reported by the thorough tier, seed 31)
+      pCheck "path" "a record that is not a knot inside the knots a subpath announces"
+        (sel == 1 || sel == 2 || sel == 4 || sel == 5) ⨾
       pSkip "path" 24 ⨾ pKnots closed n
 
 /-- one record that is not a knot: a subpath length record (0 closed, 3 open) followed by the knots it announces, or
